@@ -267,7 +267,7 @@ def main(run):
     run.add("transitions", res.generated)
     hists = [[] for _ in progs]
     errh = [[] for _ in progs]
-    for v in extract_tuples(res.out, "H|E"):
+    for v in extract_tuples(res.out, 'H"|E"'):
         if v[0] == "H":
             hists[v[1] - 1].append(v[2])
         else:
